@@ -183,6 +183,16 @@ func account(sc *Scenario, rr *RunResult, res *core.Result, run int) {
 	res.Count(fmt.Sprintf("nodes-%d", sc.Knobs.Nodes), 1)
 	res.Count("commands-acknowledged", int64(rr.Acked))
 	res.Count("commands-abandoned", int64(rr.Abandoned))
+	if sc.Knobs.Databases > 1 {
+		res.Count("runs-with-several-databases", 1)
+		for _, c := range sc.Clients {
+			for _, cmd := range c.Cmds {
+				if len(cmd.Args) > 0 && strings.EqualFold(string(cmd.Args[0]), "select") {
+					res.Count("select-commands", 1)
+				}
+			}
+		}
+	}
 	if rr.RefSkipped > 0 {
 		res.Count("c14-commands-cut-standalone-has-no-answer", int64(rr.RefSkipped))
 	}
